@@ -14,6 +14,9 @@ import (
 )
 
 func WriteTar(ctx context.Context, fs FS, w io.Writer) error {
+	// a filtered view may lack the source of a hard link: announce the first member that is
+	// present as the file itself, as Send does, so that the archive can be extracted
+	fs = WithHardlinkReset(fs)
 	tw := tar.NewWriter(w)
 	err := fs.Walk(ctx, "/", func(path string, entry os.DirEntry, err error) error {
 		if err != nil && !errors.Is(err, os.ErrNotExist) {
